@@ -297,3 +297,41 @@ Fixpoint lift3 (f : formula atom) : formula atom3 :=
   | FForallInt v b => FForallInt v (lift3 b)
   | FExistsInt v b => FExistsInt v (lift3 b)
   end.
+
+(* K_count_insert: a count atom in the regime where isla_predicates.count runs its tree-insertion
+   search (fewer needles than the target, an open leaf can still reach the needle) — the search is a
+   heuristic and answers FALSE when it finds no candidate, although a completion with exactly the
+   target number can exist.  For count(<constant>, needle, k) the regime is decided on the whole
+   tree; for a bound variable as in-tree it is over-approximated by k >= 1. *)
+Section ClassCount.
+  Variable A : Type.
+  Fixpoint count_atoms (f : formula A) : list (parg * str * str) :=
+    match f with
+    | FSmt _ | FSPred _ _ => []
+    | FSemPred n args =>
+        match args with
+        | [x; PStr needle; PStr num] => if str_eqb n s_count then [(x, needle, num)] else []
+        | _ => []
+        end
+    | FNot h => count_atoms h
+    | FAnd fs | FOr fs => flat_map count_atoms fs
+    | FForall _ _ _ b | FExists _ _ _ b | FForallInt _ b | FExistsInt _ b => count_atoms b
+    end.
+
+  Definition K_count_insert (g : grammar) (t : tree) (f : formula A) : bool :=
+    existsb (fun c =>
+      let '(x, needle, num) := c in
+      existsb (fun ps => opn (snd ps) && reachb g (lbl (snd ps)) needle) (nodes t)
+      && match py_int num with
+         | Some k =>
+             match x with
+             | PVar v => match vk v with
+                         | VConst => (Z.of_nat (count_nodes needle t) <? k)%Z
+                         | _ => (1 <=? k)%Z
+                         end
+             | _ => (1 <=? k)%Z
+             end
+         | None => false
+         end) (count_atoms f).
+End ClassCount.
+Definition m3_kcount (g : grammar) (T : tree) (f : formula atom3) : bool := K_count_insert atom3 g T f.
